@@ -79,6 +79,11 @@ CHECKS = {
          'every waveform over a 4-point grid (both terminators) x 17 capture times through the real capture function; the C03 kernel space with rise/fall counts compared to the decoded '
          'output and to a capacity-64 run; family circuits x stimuli x delays x capacities x capture times x seven accumulation-control table shapes (both heights) through WaveSim',
          'trusted: waveform decoder and summary() in the harness; sd = 0 only', 'DESIGN.md section 4 C13'),
+
+ 'C05': ('exploration', 'bounded exhaustive differential enumeration between the two real simulators',
+         'family circuits x all {0,1,R,F} stimuli with times {1,3} x delay plans x capacities x all 16 combinations of c_reuse/strip_forks on both simulators; port values, '
+         'hazard-freeness of plain constants and (without reuse) every internal line are compared',
+         'trusted: waveform decoder; LogicSim(m=8) itself is tied to the algebra by C02', 'DESIGN.md section 4 C05'),
 }
 
 NOT_YET = 'check not built yet in this session (see DESIGN.md build order); will be claimed once its exhaustive check exists'
